@@ -501,6 +501,45 @@ theorem group_flow (b b' : Bank) (es : List Eff) (A : List Addr) (hA : A.Nodup) 
   rw [sumBy_add, sumBy_add, group_inflow_list A hA, group_outflow_list A hA] at hsum
   exact hsum
 
+/-- every account an effect touches is in `A` -/
+def Eff.endsIn (A : List Addr) : Eff → Bool
+  | .xfer src dst _ _ => A.contains src && A.contains dst
+  | .mint m _ _ => A.contains m
+  | .burn m _ _ => A.contains m
+
+theorem inTo_outFrom_balance (A : List Addr) (d : Denom) (es : List Eff) (h : es.all (Eff.endsIn A) = true) :
+    sumBy (Eff.inTo A d) es + burned es d = sumBy (Eff.outFrom A d) es + minted es d := by
+  induction es with
+  | nil => simp [burned, minted]
+  | cons e es ih =>
+    simp only [List.all_cons, Bool.and_eq_true] at h
+    have ih' := ih h.2
+    simp only [burned, minted, sumBy_cons] at *
+    cases e with
+    | xfer src dst d' amt =>
+      simp only [Eff.endsIn, Bool.and_eq_true] at h
+      simp only [Eff.inTo, Eff.outFrom, Eff.burned, Eff.minted, h.1.1, h.1.2, true_and]
+      split <;> omega
+    | mint m d' amt =>
+      simp only [Eff.endsIn] at h
+      simp only [Eff.inTo, Eff.outFrom, Eff.burned, Eff.minted, h.1, true_and]
+      split <;> omega
+    | burn m d' amt =>
+      simp only [Eff.endsIn] at h
+      simp only [Eff.inTo, Eff.outFrom, Eff.burned, Eff.minted, h.1, true_and]
+      split <;> omega
+
+/-- **Total-supply invariant** (the model-level counterpart of x/bank's registered invariant):
+if the supply of `d` equals the total held by the accounts of `A` and every effect stays within `A`,
+the same holds afterwards. -/
+theorem total_supply_inv (b b' : Bank) (es : List Eff) (A : List Addr) (hA : A.Nodup)
+    (hends : es.all (Eff.endsIn A) = true) (h : b.applyAll es = .ok b') (d : Denom)
+    (hinv : b.supply d = totalOver b A d) : b'.supply d = totalOver b' A d := by
+  have g := group_flow b b' es A hA h d
+  have f := (Bank.applyAll_flow es b b' h "" d).2
+  have e := inTo_outFrom_balance A d es hends
+  omega
+
 /-- **Conservation + frame** for effect lists that only move coins among `A`. -/
 theorem within_conserves (b b' : Bank) (es : List Eff) (A : List Addr) (hA : A.Nodup)
     (hw : es.all (Eff.within A) = true) (h : b.applyAll es = .ok b') :
